@@ -32,3 +32,9 @@ func rrNonNeg(tag string) float64 {
 
 const rrAbs = 1e-9
 const rrRel = 1e-9
+
+func rrOne(v float64) data.ND1Float64 {
+	a := data.NewArray1DFloat64(1)
+	a.Set1(0, v)
+	return a
+}
